@@ -1,5 +1,67 @@
 # claim(pid, text, level_note, design_ref)
+BOUND = "Bounds and per-harness parameters are written into evidence.coverage.harnesses[]; nothing is claimed outside them. Trusted: go/packages+go/ssa, the zx interpreter and its models (time, math, sync, fmt, golog), cvc5 (z3 cross-check where stated), the harness oracles. "
+
+claim("C01",
+      "Bounded symbolic execution of the real code: (E.A) for 26 expression trees of the aggregate grammar, folding <=K symbolic points with the real Update gives a state whose Get equals a reference aggregate computed from the raw points; (C01.B) the real bytetree Update/Walk keeps one node per distinct key for any prefix/equal/diverging relation between symbolic keys; (I.A) real table.insert hands each accepted numeric point to the row store exactly once under the group-by projection and never an expired or filtered one. Each obligation is an SMT validity query; counterexamples are replayed natively.",
+      BOUND + "K<=2 points quick (3 thorough), keys <=3 bytes, 3 updates; values finite, compared on the reals (real mode); PERCENTILE, the WAL, the processInserts goroutine and flush timing are outside.",
+      "DESIGN.md §5 C01")
+claim("C02",
+      "Crash-point obligation decided symbolically over a file-system model: real doProcessFlush / writeOffsets run until a solver-chosen FS operation, unsynced data survives only partially, then real openRowStore + fileStore.iterate must find exactly the pre-flush or the post-flush (rows, offset) pair. Plus: wal.Offset.After is a strict total order, Advance/LimitAge never lower an offset, writeOffsets/readOffsets round-trip (symbolic offsets).",
+      BOUND + "FS and snappy are models written in Go beside the harness (zz_fsmodel.go): Sync durable, Rename/Remove atomic, torn unsynced suffix in {0, half, all}; <=2 inserts over <=2 keys, one optional earlier flush, one crash per run; asynchronous kills between machine instructions, WAL durability, repeated crash rounds and removeOldFiles are outside. Replay grade R2 (concrete re-execution in the interpreter).",
+      "DESIGN.md §5 C02")
+claim("C03",
+      "Real fileStore.iterate over a file written by the real flush plus a memstore copy, for every pair of (old, new) schemas of a pool and every requested field sub-list: each key with a requested column on disk or in memory is delivered exactly once with file (+) memory per column and the scan never ends early without an error.",
+      BOUND + "2 keys on disk, 2 in memory, schemas from a pool of 3, 6 requested sub-lists, symbolic finite values (real mode); FS/snappy models as for C02; timer-driven and sorted flushes, restarts, PERCENTILE are outside. Replay grade R2.",
+      "DESIGN.md §5 C03")
 claim("C04",
-      "Bounded symbolic execution of the real Sequence.Truncate with a freeze monitor on the operand: for every valid sequence (<= N periods, every accumulator byte symbolic), every absolute time and every asOf/until (zero, on-grid or off-grid) no store changes a byte of the operand. Holds within the bounds or a concrete counterexample is replayed natively.",
-      "Bounds: N<=3 periods quick / 5 thorough; resolutions 2^30 ns and 1 s (+7 ns thorough); times in [2^40,2^62) ns; RoundTimeUntilUp/Down replaced by integer summaries inside a 1024-period window. Trusted: go/ssa, the zx interpreter and its models, cvc5.",
+      "Freeze monitors on the real read-path kernels: Sequence.Truncate and Sequence.Merge never change a byte of their operands, and a Tree.Copy taken for a scan is unaffected by later updates of the live tree, for every valid sequence (every accumulator byte symbolic), absolute time, alignment and bound inside the limits.",
+      BOUND + "N<=3 periods (Truncate) / 2 (Merge) quick; resolutions 2^30 ns and 1 s; times in [2^40,2^62) ns; RoundTimeUntilUp/Down replaced by integer summaries inside a 1024-period window; the SQL front end and PERCENTILE are outside.",
       "DESIGN.md §5 C04")
+claim("C05",
+      "Accumulator homomorphism and sequence algebra on the real code: for 26 expression trees Merge(state(A),state(B)) reports the aggregate of A+B for every split, Update/Merge/Get consume exactly EncodedWidth bytes and never write their operands; Sequence.Merge places the per-period accumulator merge for any alignment, gap and overlap, is commutative and associative in value; Truncate keeps exactly the periods inside (asOf, until] byte-identical.",
+      BOUND + "N<=2 periods per sequence for Merge (3 for Truncate), spread <=2 periods quick; accumulator bytes fully symbolic with finite floats; sums compared on the reals where the property says 'up to reassociation'; PERCENTILE, NaN/Inf and distances beyond 1024 periods are outside.",
+      "DESIGN.md §5 C05")
+claim("C07",
+      "Window law of the real Sequence.Truncate: a period wholly inside (asOf, until] is kept with identical bytes, a period ending at or before asOf or after until is dropped, for symbolic on-grid and off-grid bounds.",
+      BOUND + "N<=3 periods; only the Truncate kernel is decided so far (planner.asOfUntilFor, group.GetAsOf/GetUntil and flatten emission are not yet encoded); roundings through verified integer summaries.",
+      "DESIGN.md §5 C07")
+claim("C09",
+      "orderedRows.Less equals the lexicographic comparison of the key list for two fully symbolic rows and every key list up to length L over {_time, f1, f2, d1, d2} x {asc, desc}; the real sorter (sort.Sort) emits a sorted permutation; Limit(Offset(src,m),n) emits exactly rows m..min(k,m+n)-1 for symbolic m, n.",
+      BOUND + "L<=2 keys quick (3 thorough), 3 rows for the sorter, k<=4 source rows; NaN sort keys, dims of different Go types between rows, and LIMIT 0 (treated as no limit by the planner, noted as D12) are outside.",
+      "DESIGN.md §5 C09")
+claim("C10",
+      "Routing agreement on the real code: for a WAL entry with symbolic dims the leader's mapPartitionRequest sends exactly one result with 0<=pid<P and, among P follower tables, table.insert(isFollower) accepts the entry in exactly the partition the leader computed.",
+      BOUND + "P in 1..5, partition keys in {none, {a}, {b,a}}, dims a (2-byte string) and b (int64) present or absent; murmur3 replaced by a deterministic polynomial hash (only determinism and Reset are used); live nodes, gRPC fan-out and plan equivalence are outside (C11 not claimed).",
+      "DESIGN.md §5 C10")
+claim("C12",
+      "Follower-side dedup of the real doFollowLeaders callback: with two tables whose prior offsets are symbolic and three deliveries with symbolic offsets (replays, duplicates, gaps are order relations chosen by the solver), each table is handed an entry iff it is After everything that table accepted, in order, independently; makeFollows never requests an earliest offset above a table's own; Offset order lemmas as in C02.",
+      BOUND + "one fixed run-to-block schedule (T3): deliveries first, then the per-table consumers; the leader-side filter (processFollowers), restarts from crash images and redundant-follower convergence are outside.",
+      "DESIGN.md §5 C12")
+claim("C13",
+      "Incompleteness is reported: real web.handler.doQuery returns an error whenever its source scan ended early (source failure at any row, or its own response-size callback), and real fileStore.iterate returns the callback's error / stops exactly at the chosen row in the file phase and in the memstore phase.",
+      BOUND + "<=3 rows (web), 4 rows (2 file + 2 memstore); DB.Query, hllpp, context.WithTimeout and the file system are harness stubs; core operators under a symbolic clock and queryCluster bookkeeping are not yet encoded. Replay grade R2.",
+      "DESIGN.md §5 C13")
+claim("C14",
+      "Retention on the real kernels: table.insert never hands an expired point to the row store and never rejects a live one for age (symbolic age); Sequence.Merge keeps every in-window period of both operands; Truncate(asOf) removes exactly the expired periods.",
+      BOUND + "N<=2/3 periods; getQueryable's window and the every-10th truncating flush are not yet encoded.",
+      "DESIGN.md §5 C14")
+claim("C15",
+      "Schema change on the real scan: for every (old, new) schema pair of the pool and every requested sub-list, retained fields keep their stored values, added fields are empty on disk and take only values inserted after the change, no key is lost or duplicated (same harness as C03.I).",
+      BOUND + "schemas from a pool of 3 (add, reorder), FS/snappy models, the fieldUpdates hand-over replicated in the harness because it is inline in the processInserts select loop; restarts outside. Replay grade R2.",
+      "DESIGN.md §5 C15")
+claim("C16",
+      "No panic on malformed input: ~400 SQL statements assembled from clause fragments by shape variables (non-SELECT statements, wrong arities and argument types, unknown functions, sub-queries, time ranges) run through the real sql.Parse, sql.TableFor and planner.Plan (standalone and cluster) without a Go panic; real table.insert over an arbitrary symbolic buffer of <=20 bytes returns and a following valid entry is still inserted; mapPartitionRequest always sends its result.",
+      BOUND + "the SQL part is bounded-exhaustive over the listed shapes (the solver enumerates shape choices), not a statement about all strings; the yacc parser on raw symbolic bytes and JSON decoding are outside.",
+      "DESIGN.md §5 C16")
+claim("C17",
+      "Coalesced scans on the real doProcessIterations: each of 2-3 queries with solver-chosen field lists, early stops, own errors and own (expired/far) deadlines receives exactly the rows and the error it would receive alone, with its own fields in its own order.",
+      BOUND + "2 queries x 2 rows quick (3 x 3 thorough); rowStore.iterate and context.WithDeadline are harness stubs; whether two queries are coalesced (timing) is outside. Replay grade R2.",
+      "DESIGN.md §5 C17")
+claim("C18",
+      "Snapshot isolation reduced to sequential aliasing: after the real Tree.Copy, no later Update of the live tree (same key and period, same key other period, other key; keys and values symbolic) changes any row seen through the copy.",
+      BOUND + "2 keys <=2 bytes, one later update; flushes during a scan and file pinning are outside.",
+      "DESIGN.md §5 C18")
+claim("C19",
+      "Credential lattice decided symbolically on the real handlers: rpc server.Query/Follow/HandleRemoteQueries touch the DB only when a presented password equals the configured one (symbolic strings, 0-2 presented); web authenticate accepts only OAuth-unconfigured, the static token, or a decodable, unexpired, in-org session (symbolic clock and expiry); sqlQuery/cachedQuery answer 403 and touch nothing when authenticate says no.",
+      BOUND + "mock grpc.ServerStream with real grpc metadata; securecookie decoding, the GitHub org lookup and header/cookie access are nondeterministic stubs; cryptography, OAuth round trips and TLS are outside.",
+      "DESIGN.md §5 C19")
